@@ -213,8 +213,17 @@ impl Cqueue {
             .expect("join handler not set");
         // always join, also after a panic was already reported: the Done event is sent by
         // the select coroutine itself while it's still running with a ref to this cqueue,
-        // only the join tells that it's really finished
-        match handle.join() {
+        // only the join tells that it's really finished.
+        // this join must not be a cancellation point: the handle is already taken out of
+        // `selectors`, a Cancel panic here would detach the select coroutine and the drop
+        // would not wait for it any more (its Done event is consumed and its cnt is gone)
+        // while it's still running. a pending cancel is delivered at the next
+        // cancellation point of the poller, the guard is dropped before we re-throw
+        let res = {
+            let _g = CancelDisableGuard::new();
+            handle.join()
+        };
+        match res {
             Ok(_) => {}
             Err(panic) => {
                 if let Some(err) = panic.downcast_ref::<Error>() {
